@@ -130,7 +130,7 @@ PROPS = {
         theorems={ERRORS: ["C11_next_never_raises_expr", "C11_update_never_raises_expr", "C11_render_never_raises_expr", "C11_request_never_raises_expr"], STATUS: ["tbl_failed_request_total"], SITES: ["evalSites_guarded", "evalSites_nonempty"], ERRLOG: ["C11_errors_persist"],
                   NEXTTOTAL: ["C11_next_never_raises", "C11_next_never_raises_history", "C11_error_handler_total"]},
         keys=["status", "errors", "staged"], offers="ids",
-        prof=dict(p_badexpr=0.8), hist=dict(p_pause=0.05, p_cancel=0.1, p_task_pause=0.15, p_first_pending=0.1), monitor="C11",
+        prof=dict(p_badexpr=0.7, p_badtype=0.25), hist=dict(p_pause=0.05, p_cancel=0.1, p_task_pause=0.15, p_first_pending=0.1), monitor="C11",
         unproven=["'recorded and failed' postcondition proved only as: an error entry is logged before the failed request (C11_*), not as a full postcondition"],
     ),
     "C12": dict(
@@ -146,7 +146,7 @@ PROPS = {
                   RETRY: ["C13_tally_bounded", "C13_update_keeps_bound", "C13_retrying_only_by_retry_event", "C13_retry_event_licensed", "C13_no_retry_without_status_change"],
                   FROZEN: ["C13_retried_attempt_undecided", "C18_decided_records_completed"]},
         keys=["status", "staged", "sequence", "contexts"], offers="full",
-        prof=dict(p_retry=0.8, max_tasks=4, p_template=0.3, templates=[10, 10, 10, 3, 3]), hist=dict(p_fail=0.5, p_pause=0.05, p_dup_report=0.2), monitor="C13",
+        prof=dict(p_retry=0.8, max_tasks=4, p_template=0.3, templates=[10, 10, 10, 3, 3], p_badtype=0.08), hist=dict(p_fail=0.5, p_pause=0.05, p_dup_report=0.2), monitor="C13",
         unproven=["that each re-offer corresponds to exactly one bump of the tally, and the delay of re-offers, are monitored, not proved; proved along every history: the tally never exceeds the count (C13_tally_bounded) and a retried attempt has no recorded decision, hence no transition, publish or handler (C13_retried_attempt_undecided)"],
     ),
     "C14": dict(
@@ -160,7 +160,7 @@ PROPS = {
         title="accepted definitions are executable; broken references reported",
         theorems={SITES: ["specFacts_expr_positions_inspected", "specFacts_workflow_inspected"], STATUS: ["tbl_task_targets_have_events", "tbl_item_targets_have_events", "C15_task_events_accepted"], ERRORS: ["C11_update_never_raises_expr", "C11_next_never_raises_expr"],
                   NEXTTOTAL: ["C11_next_never_raises", "C11_error_handler_total"]},
-        keys=["status", "errors"], offers="ids", prof=dict(), hist=dict(p_pause=0.05, p_cancel=0.05, p_rerun=0.2),
+        keys=["status", "errors"], offers="ids", prof=dict(p_badtype=0.15), hist=dict(p_pause=0.05, p_cancel=0.05, p_rerun=0.2),
         monitor="C15", unproven=["C15_no_internal_error (history) not proved; the inspectors are not modelled, only their inventories are generated"],
     ),
     "C16": dict(
